@@ -73,10 +73,11 @@ def run_case(case, ctx):
         if not away:
             exp = []
             t = t0
-            while inside(t) and len(exp) < 5000:
+            cap = 40000 if case.get('long_walk') else 5000
+            while inside(t) and len(exp) < cap:
                 exp.append(t)
                 t = f(t)
-            if len(exp) >= 5000:
+            if len(exp) >= cap:
                 raise HarnessError('span too long')
     if t0 == t1:
         exp, away = [t0], False
@@ -91,6 +92,10 @@ def run_case(case, ctx):
         hols = [datetime.datetime(lo_.year, lo_.month, lo_.day) + DAY * i for i in range(0, 40, 3)]
         calendar(None, holidays=hols, weekend=[4, 5])
         poisoned = True
+    if case.get('warm_longer') and t0 != t1 and not away:
+        # an earlier call from the same start with the same bump that ran further: nothing of it may be reused
+        ctx.call(drange, t0, t1 + (t1 - t0) * 2, bump)
+        ctx.cls('after_a_longer_range_from_the_same_start')
     try:
         from .C13 import flavour
         with StepBudget(codes, budget) as sb:
@@ -225,11 +230,22 @@ def gen_case(rng):
         if kind in ('single', 'compound') and not any(u in str(bump) for u in 'hns'):
             t1 = datetime.datetime(t1.year, t1.month, min(t1.day, 28))
     case = {'kind': kind, 't0': t0.isoformat(), 't1': t1.isoformat(), 'bump': bump, 'big': big, 'via_calendar': rng.random() < 0.15, 'default_calendar_has_holidays': rng.random() < 0.3}
+    if rng.random() < 0.25:
+        case['warm_longer'] = True
     if rng.random() < 0.2:
         # the endpoints as a caller may hold them: pandas Timestamp, numpy datetime64, ISO text, date
         case['t0f'] = rng.choice([None, 'Timestamp', 'dt64', 'str', 'date'])
         case['t1f'] = rng.choice([None, 'Timestamp', 'dt64', 'str', 'date'])
     return case
+
+
+def gen_long_walk(rng):
+    """a small step over a long span: lists of 10 to 25 thousand elements through the iterated-period branch"""
+    day = datetime.datetime(rng.randint(1990, 2050), rng.randint(1, 12), rng.randint(1, 28), rng.randrange(24))
+    bump, step = rng.choice([('-1n', -60), ('1h30n', 5400), ('-1h', -3600), ('-30s', -30), ('-1h-30n', -5400), ('10n5s', 605)])
+    k = rng.randint(10050, 24000)
+    t1 = day + datetime.timedelta(seconds=step * k + (1 if step > 0 else -1) * rng.choice([0, 7]))
+    return {'kind': 'compound' if bump[1:].strip('0123456789')[1:] else 'single_intra', 't0': day.isoformat(), 't1': t1.isoformat(), 'bump': bump, 'big': True, 'long_walk': True}
 
 
 def plan(tier, seed, n):
@@ -240,7 +256,7 @@ def plan(tier, seed, n):
 def run(spec, ctx):
     for i in range(spec['n']):
         rng = random.Random('C10/%d/%d/%d' % (spec['seed'], spec['shard'], i))
-        case = gen_case(rng)
+        case = gen_case(rng) if i % 300 != 7 else gen_long_walk(rng)
         ctx.case(case)
         ctx.run_case(case, run_case)
         if ctx.full():
